@@ -170,6 +170,42 @@ func cmdC02(args []string) {
 		ev["src"] = "long"
 		emit(ev)
 	}
+	// history: what the parser did for earlier values of the stream must not change what a later value yields.
+	// Runs of one kind of value (null arrays and null bulks, empty and nested arrays, deep chains) followed by ordinary
+	// values and requests; whole, byte-wise and random delivery.
+	if *nlong > 0 {
+		nest := func(d int, leaf Val) Val {
+			for k := 0; k < d; k++ {
+				leaf = Val{T: "arr", E: []Val{leaf}}
+			}
+			return leaf
+		}
+		ping := Val{T: "arr", E: []Val{{T: "bulk", P: []byte("PING")}}}
+		kinds := []Val{{T: "narr"}, {T: "null"}, {T: "arr", E: []Val{}}, nest(3, Val{T: "narr"}), nest(4, Val{T: "int", P: []byte("7")}),
+			{T: "arr", E: []Val{{T: "narr"}, {T: "narr"}, {T: "null"}}}, {T: "bulk", P: []byte{}}, {T: "err", P: []byte("e")}}
+		for ki, kv := range kinds {
+			for _, run := range []int{1, 7, 8, 9, 17, 40} {
+				var st []byte
+				for k := 0; k < run; k++ {
+					st = append(st, encVal(kv)...)
+				}
+				st = append(st, encVal(ping)...)
+				st = append(st, encVal(nest(4, Val{T: "bulk", P: []byte("x")}))...)
+				st = append(st, encVal(Val{T: "arr", E: []Val{}})...)
+				st = append(st, encVal(nest(9+ki, Val{T: "null"}))...)
+				st = append(st, encVal(ping)...)
+				one := make([]int, len(st))
+				for i := range one {
+					one[i] = 1
+				}
+				for _, chunks := range [][]int{{len(st)}, one, randPartition(rng, len(st))} {
+					ev := chunkedEvent(st, chunks)
+					ev["src"] = "history"
+					emit(ev)
+				}
+			}
+		}
+	}
 	must(rec.Close())
 	fmt.Printf("c02: %d events\n", sc)
 }
